@@ -53,7 +53,7 @@ def rng_params(f):
     return out
 
 
-# ---------------- draw summaries: how many primitive draws an operation makes, as a symbolic count ----------------
+# ---------------- draw summaries: how many primitive draws an operation makes, as a term over loop multiplicities ----------------
 #
 # summary(f) = list of (primitive, factors): one entry per primitive draw site reached through calls that forward the
 # caller's rng; factors are the multiplicities of the enclosing constructs:
